@@ -29,7 +29,7 @@ from witnesses import WITNESSES, corpus_for
 
 PID = "C03"
 COQ_TARGETS = cp.COQ_TARGETS
-KNOWN = ["D19", "D1", "D3", "D4", "D9", "D24"]
+KNOWN = ["D19", "D1", "D3", "D4", "D9", "D24", "D26"]
 FRESH = [90, 91]          # option names that no generated expression or dictionary mentions
 
 
@@ -638,6 +638,10 @@ def run(ctx):
                         "fingerprint unchanged although the value under a reported key differs",
                         "fingerprint fails although keys() succeeds", "adding a never-mentioned key changes keys()"):
                     finding = "D6" if (scalar_parent(scn, f["o"]) or ("o2" in f and scalar_parent(scn, f["o2"]))) else cp.zone_of(scn)
+                if finding is None and cp.agrees(il, ml, scn) and cp.in_zone_d26(scn, [f["o"], f.get("o2")]) and f["kind"] in (
+                        "evaluation on the restricted dictionary differs", "same reported keys and values, different outcome",
+                        "keys() on the restricted dictionary differs"):
+                    finding = "D26"
                 if finding:
                     tagged[finding] = tagged.get(finding, 0) + 1
                 violations.append(dict(desc=f["kind"], detail={k: repr(v)[:600] for k, v in f.items() if k != "kind"},
